@@ -6,4 +6,6 @@ CONSTANTS Tok = {"e","dot","dd","ipfs","ipns","ipld","IPFS","cidV0","cidV1b32","
           LenUri = 3
           LenName = 3
           LenNameW = 2
-INVARIANTS Emit Idempotent NoDots PrintedIsCanonical SameRootCid MutableHasNoCid UriEqualsPath NameRoundTrip BinaryLaws TrailingSlashKept
+          LenSess = 4
+          LenOps = 3
+INVARIANTS Emit Idempotent NoDots PrintedIsCanonical SameRootCid MutableHasNoCid UriEqualsPath NameRoundTrip BinaryLaws TrailingSlashKept ValueSemantics DerivedLaws NameValueLaws
